@@ -431,3 +431,18 @@ pub fn run(ctx: &Ctx) -> i32 {
         assumptions: vec!["num-bigint is the trusted arithmetic".into()],
     })
 }
+
+/// BigUint definition by opcode byte, operands top-of-stack first (shared with the reference EVM)
+pub fn arith_by_opcode(op: u8, args: &[revm_primitives::U256]) -> Option<revm_primitives::U256> {
+    let d = OPS.iter().find(|o| o.byte == op)?;
+    if args.len() != d.arity {
+        return None;
+    }
+    let xs: Vec<BigUint> = args.iter().map(|a| BigUint::from_bytes_be(&a.to_be_bytes::<32>())).collect();
+    let r = define(d, &xs);
+    Some(revm_primitives::U256::from_be_bytes(w32(&r)))
+}
+
+pub fn arity_of(op: u8) -> Option<usize> {
+    OPS.iter().find(|o| o.byte == op).map(|o| o.arity)
+}
